@@ -477,6 +477,7 @@ fn gen_soup(r: &mut Rng, names: &[String], bvals: &[&str]) -> Fields {
             6 => "playlist".into(),
             7..=13 => r.pick(ATTRS).to_string(),
             14..=17 => tag_key(r, names, &mut pool),
+            18 if r.chance(1, 4) => r.pick(crate::typed::ALIEN_KEYS).to_string(),
             _ => {
                 // garbage within the field-name alphabet
                 let n = r.range(1, 8);
